@@ -134,6 +134,14 @@ Definition cnfg_check (c : cnfg_case) : bool :=
   | Ok g => cset_incl g (snd c) && cset_incl (snd c) g
   | _ => false
   end.
+(* lenient form: lark's grammar is a subset of the model's and lacks only unit-skip rules (cyk.UnitSkipRule
+   equality ignores lhs/rhs, so _remove_unit_rule can drop a second rule: known finding) *)
+Definition cnfg_check_lenient (c : cnfg_case) : bool :=
+  match to_cnf 400 (fst c) with
+  | Ok g => cset_incl (snd c) g
+            && forallb (fun x => existsb (crule_eqb x) (snd c) || nonempty (c_skipped x)) g
+  | _ => false
+  end.
 
 Fixpoint ctree_eqb (a b : ctree) : bool :=
   match a, b with
@@ -170,10 +178,11 @@ Definition cyk_diag (c : cyk_case) : nat :=
 Definition cyk_check (c : cyk_case) : bool := Nat.eqb (cyk_diag c) 0.
 
 Inductive c03_case := CaseCB (c : cb_case) | CaseE2E (c : e2e_case) | CaseFRS (c : frs_case)
-                    | CaseEARLEY (c : earley_case) | CaseCNFG (c : cnfg_case) | CaseCYK (c : cyk_case).
+                    | CaseEARLEY (c : earley_case) | CaseCNFG (c : cnfg_case) | CaseCNFGL (c : cnfg_case) | CaseCYK (c : cyk_case).
 Definition c03_check (c : c03_case) : bool :=
   match c with CaseCB x => cb_check x | CaseE2E x => e2e_check x | CaseFRS x => frs_check x
-             | CaseEARLEY x => earley_check x | CaseCNFG x => cnfg_check x | CaseCYK x => cyk_check x end.
+             | CaseEARLEY x => earley_check x | CaseCNFG x => cnfg_check x | CaseCNFGL x => cnfg_check_lenient x
+             | CaseCYK x => cyk_check x end.
 
 (* C16 ------------------------------------------------------------------------------------ *)
 (* the symbolic transformer: callbacks on the listed rule names / terminal types build tagged nodes *)
